@@ -2,6 +2,7 @@ import PermutaModel.Lemmas.C16Special
 import PermutaModel.Lemmas.C16Fam
 import PermutaModel.Lemmas.C16Simple
 import PermutaModel.Props.C10
+import PermutaModel.Props.C14
 
 /-!
 # C16 — the "finitely many simples" decision
@@ -443,6 +444,40 @@ theorem hasFiniteSimples_class_only (B B' : List NSeq) (hB : ∀ x ∈ B, IsPerm
   rw [Bool.eq_iff_iff, hasFiniteSimples_iff, hasFiniteSimples_iff, special_class_only B B' hB hB' h, hpin]
 example (d : DFA) : hasFiniteSimples [[0, 1]] false false (some d) = hasFiniteSimples [[0, 1], [0, 1]] false false (some d) := by
   refine hasFiniteSimples_class_only _ _ (by decide) (by decide) ?_ _ _ _ rfl
+  intro σ _
+  simp
+
+/-! ## A6  the pin half discharged (through the Bassino–Bouvel–Pierrot–Rossin theorem proved in `Props/C14.lean`)
+
+`C14.hasFinitePinperms_act` and `C14.hasFinitePinperms_class_only` are exactly the hypothesis `hpin` of
+`hasFiniteSimples_act` / `hasFiniteSimples_class_only` for `dfa = None`; with an automaton supplied the
+hypothesis is void.  So the verdict is invariant outright. -/
+
+/-- **`has_finite_simples` is invariant under the eight symmetries** – every flag combination, with or
+    without a supplied automaton, no hypothesis left -/
+theorem hasFiniteSimples_act_all (B : List NSeq) (hB : ∀ x ∈ B, IsPerm x) (g : D8) (useDb checkAll : Bool)
+    (dfa : Option DFA) :
+    hasFiniteSimples (B.map g.act) useDb checkAll dfa = hasFiniteSimples B useDb checkAll dfa := by
+  refine hasFiniteSimples_act B hB g useDb checkAll dfa ?_
+  cases dfa with
+  | some d => rfl
+  | none => exact C14.hasFinitePinperms_act B hB g
+example : hasFiniteSimples ([[0, 1, 2], [1, 0]].map (⟨true, false, true⟩ : D8).act) false true none =
+    hasFiniteSimples [[0, 1, 2], [1, 0]] false true none :=
+  hasFiniteSimples_act_all _ (by decide) _ _ _ _
+
+/-- **`has_finite_simples` depends only on the class**: two bases with the same avoiders get the same
+    verdict – no hypothesis on the pin half left -/
+theorem hasFiniteSimples_class_only_all (B B' : List NSeq) (hB : ∀ x ∈ B, IsPerm x) (hB' : ∀ x ∈ B', IsPerm x)
+    (h : ∀ σ, IsPerm σ → ((∀ x ∈ B, ¬ Contains σ x) ↔ (∀ x ∈ B', ¬ Contains σ x)))
+    (useDb checkAll : Bool) (dfa : Option DFA) :
+    hasFiniteSimples B useDb checkAll dfa = hasFiniteSimples B' useDb checkAll dfa := by
+  refine hasFiniteSimples_class_only B B' hB hB' h useDb checkAll dfa ?_
+  cases dfa with
+  | some d => rfl
+  | none => exact C14.hasFinitePinperms_class_only B B' hB hB' h
+example : hasFiniteSimples [[0, 1]] false false none = hasFiniteSimples [[0, 1], [0, 1]] false false none := by
+  refine hasFiniteSimples_class_only_all _ _ (by decide) (by decide) ?_ _ _ _
   intro σ _
   simp
 
